@@ -245,3 +245,13 @@ pub fn reset_watches() {
         s.recording = None;
     });
 }
+
+/// Is there a live allocation starting exactly at `addr`? Returns its
+/// (size, serial number).
+pub fn live_at(addr: usize) -> Option<(usize, u64)> {
+    with_state(|s| s.live.get(&addr).copied()).flatten()
+}
+
+pub fn is_enabled() -> bool {
+    TRACK.load(Ordering::Relaxed)
+}
